@@ -155,6 +155,10 @@ def generate(unit, repo):
             sig = text[st:bo].rstrip()
             body = text[bo:en]
             counts = {}
+            # R5: restricted visibility (`pub(super)`, `pub(crate)`) is meaningless in the single-file unit
+            sig, nvis = re.subn(r"\bpub\((?:super|crate|self|in [^)]*)\)", "pub", sig)
+            if nvis:
+                counts["R5_visibility"] = nvis
             body = extract.apply_body_rules(body, counts, info["dropped"])
             for a, b in substs:
                 if a.startswith("re:"):
